@@ -18,6 +18,8 @@ for p in ["C%02d" % i for i in range(1, 21)]:
         JOBS.append((p, k + 11, "/tmp/seed10-%s/%d" % (p, k), "/tmp/confirm10/%s-%d.json" % (p, k), "/tmp/seedrun10/%s-%d.txt" % (p, k), "round 6: free choice of defect again (as round 1), on the final machinery"))
     for k in (1, 2):
         JOBS.append((p, k + 13, "/tmp/seed12-%s/%d" % (p, k), "/tmp/confirm12/%s-%d.json" % (p, k), "/tmp/seedrun12/%s-%d.txt" % (p, k), "round 7: free choice once more, after the corrections of rounds 5-6"))
+    for k in (1, 2):
+        JOBS.append((p, k + 15, "/tmp/seed14-%s/%d" % (p, k), "/tmp/confirm14/%s-%d.json" % (p, k), "/tmp/seedrun14/%s-%d.txt" % (p, k), "round 8: free choice, with at least one change per agent that is not a local slip - cooperating edits in two functions, a shared helper or macro only one rare caller is sensitive to, a state-dependent sequence, or a difference confined to one build configuration"))
 for (p, k, src, conf, run, rnd) in JOBS:
     if True:
         if not (os.path.exists(src + "/patch.diff") and os.path.exists(conf)):
